@@ -63,9 +63,8 @@ func realTransportRuns(c *run.Ctx, s *kit.Summary, r *kit.Rng) {
 		for j, res := range results {
 			s.Case(fmt.Sprint("real:", i, ":", res.Seq), true)
 			ts := res.Timestamp.Sub(t0)
-			if res.Seq != uint64(j) {
-				viol("seq_gap_or_duplicate", "sequence numbers are not 0..n-1", fmt.Sprint(j), fmt.Sprint(res.Seq))
-				break
+			if j > 0 && res.Seq == results[j-1].Seq {
+				continue // same number twice is C02's business; nothing to compare here
 			}
 			if j > 0 && res.Timestamp.Before(results[j-1].Timestamp) {
 				viol("seq_order_disagrees_with_timestamp_order", "a result with a larger sequence number has an earlier timestamp",
